@@ -668,4 +668,13 @@ theorem testBit_unionAt (rs : List CatRange) (x k : Nat) :
     (unionAt rs x).testBit k = rs.any (fun r => decide (r.b ≤ x ∧ x < r.e) && r.c.testBit k) := by
   rw [unionAt_eq, testBit_unionFrom]; simp
 
+/-! ## the category column of `InputBuffer::build` -/
+
+/-- when every look-up answers, `mod_cat` is the text mapped through the look-up -/
+theorem bufferCats_eq_map (tab : List (Nat × Nat)) (f : Nat → Nat) (h : ∀ x, lookup tab x = some (f x))
+    (text : List Nat) : bufferCats tab text = some (text.map f) := by
+  induction text with
+  | nil => rfl
+  | cons c rest ih => simp [bufferCats, h, ih]
+
 end CharCat
